@@ -107,7 +107,7 @@ def step (st : Option Plane.Plane) (line : String) : Option Plane.Plane × Strin
     | _, _ => (st, "bad-op")
   | ["plane.add", id, x0, y0, x1, y1] =>
     match st, id.toNat?, rats [x0,y0,x1,y1] with
-    | some p, some id, some [x0,y0,x1,y1] => (some (Plane.add p ⟨id,x0,y0,x1,y1⟩), "ok")
+    | some p, some id, some [x0,y0,x1,y1] => (some (Plane.addPy p ⟨id,x0,y0,x1,y1⟩), "ok")
     | _, _, _ => (st, "bad-op")
   | ["plane.remove", id, x0, y0, x1, y1] =>
     match st, id.toNat?, rats [x0,y0,x1,y1] with
